@@ -318,6 +318,8 @@ def coq_expand(ctx, cases, tag='style', shard_cases=400):
                 res[idx] = decode_show(next(it))
     ctx.cov.setdefault('coq_eval', []).append({'cases': len(cases), 'shards': len(shards), 'groups': len(order),
                                               'wall_s': round(time.time() - t0, 1)})
+    import shutil
+    shutil.rmtree(d, ignore_errors=True)      # kept only when the evaluation failed (for diagnosis)
     return res
 
 
